@@ -3,6 +3,7 @@ package main
 // C01 GenBank parsing returns exactly what a well-formed record states.
 
 import (
+	"go/types"
 	"fmt"
 	"regexp"
 	"sort"
@@ -263,9 +264,22 @@ func ruleC01(c *Ctx) {
 	}
 	// Other map update
 	nOther := 0
+	tableDispatch := false // the keyword is (also) looked up in a table: absence from the comparisons proves nothing
+	eachInstr(parse, func(i ssa.Instruction) {
+		if lk, ok := i.(*ssa.Lookup); ok && tb.T(lk.Index).String() == key {
+			if _, isMap := lk.X.Type().Underlying().(*types.Map); isMap {
+				tableDispatch = true
+			}
+		}
+	})
 	eachInstr(parse, func(i ssa.Instruction) {
 		mu, ok := i.(*ssa.MapUpdate)
 		if !ok {
+			return
+		}
+		// only stores into the record's Other map (map[string]string); a dispatch table built at run time is not it
+		if tname(mu.Map.Type()) != "map[string]string" {
+			tableDispatch = true
 			return
 		}
 		nOther++
@@ -317,7 +331,7 @@ func ruleC01(c *Ctx) {
 	for _, kw := range []string{"LOCUS", "DEFINITION", "ACCESSION", "VERSION", "KEYWORDS", "SOURCE/Source", "SOURCE/Organism", "REFERENCE", "FEATURES", "ORIGIN"} {
 		if !seenKW[kw] {
 			base := strings.SplitN(kw, "/", 2)[0]
-			if !caseSet[base] {
+			if !caseSet[base] && !tableDispatch {
 				c.bad("FIELDMAP-R", "missing case "+kw, parse.Pos(), "the keyword dispatch compares the keyword with "+fmt.Sprint(len(caseSet))+" constants but never with "+base+": that block is not parsed")
 			} else {
 				c.undecided("FIELDMAP-R", "missing case "+kw, parse.Pos(), "the case for "+base+" exists but its effect on the record was not recognised")
